@@ -358,3 +358,180 @@ def desugar_internal_iteration(doc):
             f.setdefault("inlined", []).append(h["id"])
             done.append((f["id"], h["id"]))
     return done
+
+
+# ---------------------------------------------------------------------------------------------------------------------
+# jump threading of known discriminants
+
+_KNOWN_ADTS = ("std::result::Result", "std::option::Option", "std::ops::ControlFlow")
+_TRY_MAP = {("std::result::Result", "Ok"): "Continue", ("std::result::Result", "Err"): "Break",
+            ("std::option::Option", "Some"): "Continue", ("std::option::Option", "None"): "Break",
+            ("std::ops::ControlFlow", "Continue"): "Continue", ("std::ops::ControlFlow", "Break"): "Break"}
+MAX_THREADS_PER_BODY = 60
+
+
+def _succs(t):
+    k = t["k"]
+    if k == "goto":
+        return [t["t"]]
+    if k == "switch":
+        return [x[1] for x in t["targets"]] + [t["otherwise"]]
+    if k in ("call", "drop", "assert"):
+        out = [t["t"]] if t.get("t") is not None else []
+        if isinstance(t.get("unwind"), int):
+            out.append(t["unwind"])
+        return out
+    return []
+
+
+def _whole_local(p):
+    return p is not None and "p" not in p or (p is not None and not p.get("p"))
+
+
+def _built_variant(bl, local, depth=0):
+    """the variant a whole-local Result/Option/ControlFlow value is *built* with by the last write to `local` in this block:
+    (adt, variant), or None when the block does not write it, or False when it writes something else"""
+    for st in reversed(bl["stmts"]):
+        if st.get("k") != "assign":
+            continue
+        p = st["p"]
+        if p["l"] != local:
+            continue
+        if p.get("p"):
+            return False                       # partial write
+        rv = st["rv"]
+        if rv["k"] == "aggregate" and rv.get("adt") in _KNOWN_ADTS and rv.get("variant"):
+            return (rv["adt"], rv["variant"])
+        if rv["k"] == "use" and rv["op"].get("k") in ("move", "copy") and not rv["op"]["p"].get("p") and depth < 3:
+            # r = move tmp: look for tmp's construction earlier in the same block
+            idx = bl["stmts"].index(st)
+            sub = {"stmts": bl["stmts"][:idx]}
+            v = _built_variant(sub, rv["op"]["p"]["l"], depth + 1)
+            return v if v else False
+        return False
+    return None
+
+
+def _mentions_mutably(bl, local):
+    """conservative: does the block take a reference to / write the local other than by whole assignment"""
+    for st in bl["stmts"]:
+        if st.get("k") == "assign":
+            if st["p"]["l"] == local:
+                return True
+            rv = st["rv"]
+            if rv["k"] == "ref" and rv["p"]["l"] == local:
+                return True
+    return False
+
+
+def thread_known_discriminants(doc, dry=False):
+    """Where a Result/Option/ControlFlow value is built with a known variant at the end of a predecessor and the successor only
+    tests it — `match r { .. }` directly, or `r?` through Try::branch — the predecessor is sent to a *copy* of the testing
+    blocks in which the switch is replaced by the edge that variant takes.  The infeasible combinations ("built Err, took the Ok
+    arm") disappear from the CFG; nothing else changes (the copies keep every statement and call of the originals)."""
+    done = []
+    for f in doc["fns"]:
+        if "body" not in f:
+            continue
+        body = f["body"]
+        blocks = body["blocks"]
+        n0 = len(blocks)
+        made = 0
+        preds = {}
+        for i, bl in enumerate(blocks):
+            for s in _succs(bl["term"]):
+                preds.setdefault(s, []).append(i)
+        heads = []          # (entry block E, test block T, tested local, via_try)
+        for ti in range(n0):
+            T = blocks[ti]
+            t = T["term"]
+            if t["k"] != "switch" or t["discr"].get("k") not in ("move", "copy") or t["discr"]["p"].get("p"):
+                continue
+            d = t["discr"]["p"]["l"]
+            dst = [st for st in T["stmts"] if st.get("k") == "assign" and st["p"]["l"] == d and not st["p"].get("p")]
+            if not dst or dst[-1]["rv"]["k"] != "discr" or dst[-1]["rv"]["p"].get("p") or dst[-1]["rv"].get("adt") not in _KNOWN_ADTS:
+                continue
+            r = dst[-1]["rv"]["p"]["l"]
+            variants = {name: idx for idx, name in dst[-1]["rv"]["variants"]}
+            if any(st.get("k") == "assign" and st["p"]["l"] == r for st in T["stmts"]):
+                continue                     # the tested value is produced in the test block itself
+            ps = preds.get(ti, [])
+            if len(ps) == 1 and blocks[ps[0]]["term"]["k"] == "call" and blocks[ps[0]]["term"].get("t") == ti:
+                J = blocks[ps[0]]
+                jt = J["term"]
+                fr = (jt.get("func") or {}).get("fn") or {}
+                if not jt["dest"].get("p") and jt["dest"]["l"] == r:
+                    if fr.get("def") == "std::ops::Try::branch" and len(jt["args"]) == 1 and jt["args"][0].get("k") in ("move", "copy") \
+                            and not jt["args"][0]["p"].get("p"):
+                        r0 = jt["args"][0]["p"]["l"]
+                        # `let x = r?` hands the value over first: _tmp = move r; Try::branch(move _tmp)
+                        for _ in range(3):
+                            ws = [st for st in J["stmts"] if st.get("k") == "assign" and st["p"]["l"] == r0]
+                            if len(ws) == 1 and not ws[0]["p"].get("p") and ws[0]["rv"]["k"] == "use" \
+                                    and ws[0]["rv"]["op"].get("k") in ("move", "copy") and not ws[0]["rv"]["op"]["p"].get("p"):
+                                r0 = ws[0]["rv"]["op"]["p"]["l"]
+                            else:
+                                break
+                        if not _mentions_mutably(J, r0):
+                            heads.append((ps[0], ti, r0, True, variants))
+                    continue
+            heads.append((ti, ti, r, False, variants))
+        for (ei, ti, r, via_try, variants) in heads:
+            for pi in list(preds.get(ei, [])):
+                if pi == ei or pi == ti or made >= MAX_THREADS_PER_BODY:
+                    continue
+                P = blocks[pi]
+                pt = P["term"]
+                if pt["k"] not in ("goto", "drop") or pt.get("t") != ei:
+                    continue
+                if pt["k"] == "drop" and pt.get("p", {}).get("l") == r:
+                    continue
+                chain = [pi]
+                v = _built_variant(P, r)
+                # one or two forwarding blocks between the construction and the test
+                hops = 0
+                while v is None and hops < 2:
+                    pp = preds.get(chain[-1], [])
+                    if len(pp) != 1:
+                        break
+                    Q = blocks[pp[0]]
+                    qt = Q["term"]
+                    if qt["k"] not in ("goto", "drop") or qt.get("t") != chain[-1] or (qt["k"] == "drop" and qt.get("p", {}).get("l") == r):
+                        break
+                    chain.append(pp[0])
+                    v = _built_variant(Q, r)
+                    hops += 1
+                if not v:
+                    continue
+                adt, variant = v
+                if via_try:
+                    variant = _TRY_MAP.get((adt, variant))
+                if variant not in variants:
+                    continue
+                T = blocks[ti]
+                idx = variants[variant]
+                target = dict((a, b) for a, b in T["term"]["targets"]).get(str(idx), T["term"]["otherwise"])
+                done.append((f["id"], chain[-1], ei, variant))
+                if dry:
+                    continue
+                # copies: forwarding blocks strictly between the constructing block and E (chain[:-1] reversed), E, T
+                nb = len(blocks)
+                Tn = copy.deepcopy(T)
+                Tn["term"] = {"k": "goto", "t": target, "threaded": variant, "sp": T["term"].get("sp")}
+                if ei != ti:
+                    En = copy.deepcopy(blocks[ei])
+                    En["term"]["t"] = nb + 1
+                    blocks.append(En)         # nb
+                    blocks.append(Tn)         # nb + 1
+                else:
+                    blocks.append(Tn)         # nb
+                entry = nb
+                for ci in chain[:-1]:         # nearest to E first
+                    Cn = copy.deepcopy(blocks[ci])
+                    Cn["term"]["t"] = entry
+                    blocks.append(Cn)
+                    entry = len(blocks) - 1
+                blocks[chain[-1]]["term"]["t"] = entry
+                made += 1
+    return done
+
